@@ -69,7 +69,8 @@ def stream_path(which, prefixes, p_free, periods, total, chunks, ascii_only=Fals
 
 
 HDR2047 = [0xA7, 0xFF, 0x03, 0x21, 0x13]
-HDLC_PREFIXES = [[], [0x7E], [0x7E] + HDR2047 + [ref.fcs16(HDR2047) & 0xFF, ref.fcs16(HDR2047) >> 8]]
+HDLC_PREFIXES = [[], [0x7E], [0x7E] + HDR2047 + [ref.fcs16(HDR2047) & 0xFF, ref.fcs16(HDR2047) >> 8],
+                 [0x7E, 0xA0, 0x03, 0x01, 0x01, 0x13, 0xAA, 0xBB]]      # header announcing fewer octets than have already arrived
 FRAME = ref.build_frame([0x03], [0x21], 0x13, [0xE6, 0xE7, 0x00, 0x0F, 0x40])
 P1_PREFIXES = [[], [0x2F], list(b"/LGF5E360\r\n"), list(b"/LGF5E360\r\n1-0:1.8.0(000123*kWh)\r\n")]
 READOUT = ref_p1.build_readout(b"/ADN9 6534", [b"1-0:1.8.0(00006678.394*kWh)", b"1-0:1.7.0(0001.727*kW)"])
@@ -82,7 +83,7 @@ def scenarios(tier):
     mh, mp = (5, 4) if q else (16, 16)
     for which in (("hdlc10", "hdlc00") if q else ("hdlc00", "hdlc01", "hdlc10", "hdlc11")):
         out.append(Scenario(f"{which}: prefix . (free period of {2 if q else 3})^m, {mh * 2048} octets", stream_path(which, HDLC_PREFIXES, 2 if q else 3, None, mh * 2048, [3, 4096] if q else [1, 7, 4096, 65536]),
-                            bounds={"prefixes": "'' | 7E | 7E + valid header announcing 2047 octets", "free_period_octets": 2 if q else 3, "total_octets": mh * 2048, "chunk_sizes": [3, 4096] if q else [1, 7, 4096, 65536], "bound_asserted": 3 * 2048},
+                            bounds={"prefixes": "'' | 7E | 7E + valid header announcing 2047 octets | 7E + frame start whose length field (3) is already exceeded", "free_period_octets": 2 if q else 3, "total_octets": mh * 2048, "chunk_sizes": [3, 4096] if q else [1, 7, 4096, 65536], "bound_asserted": 3 * 2048},
                             domains=("hdlc",), frontier=2, assumptions=A, replay_cap=24, path_budget=1))
         out.append(Scenario(f"{which}: valid frames back to back, {mh * 2048} octets", stream_path(which, [[0x7E]], 0, [FRAME + [0x7E], ref.stuff(FRAME) + [0x7E, 0x7E]], mh * 2048, [1, 7, 4096]),
                             bounds={"period": "a spec frame + flag(s)", "total_octets": mh * 2048}, domains=("hdlc",), frontier=2, assumptions=A, replay_cap=24, path_budget=1))
